@@ -142,7 +142,8 @@ class EvMonWorld(World):
             check_map(step)
             hist.rec("map", k, len(order))
 
-        dut = hw.construct(event.Monitor, em, trigger=config["trigger"])
+        dut = hw.must_accept("C13", f"event.Monitor({len(order)} sources, trigger={config['trigger']})",
+                             event.Monitor, em, trigger=config["trigger"])
         check_map(step + 1)     # constructing the monitor must not renumber anything
         n = len(order)
         trigs = [s.trigger.value for s in order]
